@@ -279,6 +279,14 @@ def run(ctx):
                [site(c.body, c.bb) for c in raw + classify],
                what='Manifest::replay propagates the EOF error of a torn last record (reopen fails after a crash '
                     'in the middle of a manifest append)')
+        # nothing may reject the file before the record-wise parser sees it: a tail torn inside a multi-byte character is still a torn tail
+        whole = [c for g in grp for c in g.calls if re.search(r'read_to_string$|String::from_utf8$|str::from_utf8$', c.fn or '')]
+        ctx.ob(R2, 'Manifest::replay·bytes-reach-the-record-parser', not whole,
+               'the manifest is ' + ('validated as UTF-8 as a whole before parsing: ' + str([c.fn.rsplit('::', 1)[-1] for c in whole]) if whole else
+                                     'handed to the JSON stream as bytes'), [site(c.body, c.bb) for c in whole] or [b.loc],
+               what='Manifest::replay reads the whole file with read_to_string: an append torn inside a multi-byte UTF-8 character (a table or column '
+                    'name with a non-ASCII letter) fails the read itself, before the parser that tolerates a torn tail runs - the database cannot '
+                    'be opened after such a crash')
 
     # R3 single write per transaction record ---------------------------------------------------------
     R3 = 'C04-R3'
@@ -299,6 +307,22 @@ def run(ctx):
             ctx.ob(R3, 'Manifest::append·End≺write', all(b.dominated_by_any(set(ends), x) for x in w),
                    'the single write must be dominated by the serialisation of ManifestOperation::End',
                    [site(b, x) for x in ends + w])
+        # one transaction = one bracket = one write: neither the write nor the serialisation of Begin / End is repeated (after seed C04-f:
+        # a changeset written in batches, each with a bracket of its own, is no longer atomic for replay)
+        begins = []
+        for c in b.calls:
+            if (c.fn or '').endswith('serde_json::to_writer') and len(c.args) > 1:
+                if flows_from(b, c.args[1]['pl']['l'], lambda k, p, bb: k == 'assign' and p.get('rv') == 'use'
+                              and p['op']['k'] == 'const' and is_promoted_variant(b, p['op'].get('v', ''), 'Begin')):
+                    begins.append(c.bb)
+        looped = [x for x in w + ends + begins if b.reachable_from(b.succs[x]) & {x}]
+        if ctx.anchor(R3, 'Manifest::append:serialize(Begin)', begins):
+            ctx.ob(R3, 'Manifest::append·one-bracket-per-call', not looped and len(begins) == 1 and len(ends) == 1,
+                   f'Begin serialised at {begins}, End at {ends}, write at {w}; of these inside a loop: {looped}',
+                   [site(b, x) for x in (looped or begins + ends)],
+                   what='Manifest::append writes one changeset as several Begin..End brackets (or in several writes): replay commits every closed '
+                        'bracket, so a crash in the middle of the append leaves a statement with many entries (a large INSERT, DELETE, DROP TABLE) '
+                        'half applied after recovery')
 
     # R4 who mutates files ---------------------------------------------------------------------------
     R4 = 'C04-R4'
